@@ -14,7 +14,6 @@ package runtime
 //@ default nonnil *ContextCheck
 //@ default nonnil *ast.AttrExpr
 //@ default nonnil *ast.IfStmtElem
-//@ default nonnil *Script
 
 // what a per-function checker may write on pre-existing objects
 //@ frame checkerFrame = ctx.callRef, elemsof(*ast.CallExpr), ast.CallExpr.Grok, ast.CallExpr.PrivateData,
